@@ -227,6 +227,9 @@ class ExplorerScriptSsbCompiler:
                 logger.debug("<%d> Compiling routines...", id(self))
                 compiler_visitor = RoutineVisitor(self.performance_progress_list_var_name, self.macros)
                 compiler_visitor.visit(tree)
+                assert routine_op_offsets_are_ordered(
+                    compiler_visitor.routine_ops
+                ), "The routines must be defined in the order of their ids."
             except Exception as ex:
                 # due to the stack nature of the decompile visitor, we get many stack exceptions after raising
                 # the first. Raise the last exception in the context chain.
@@ -235,8 +238,6 @@ class ExplorerScriptSsbCompiler:
                 raise ex
         except AssertionError as e:
             raise ValueError(str(e)) from e
-
-        assert routine_op_offsets_are_ordered(compiler_visitor.routine_ops)
 
         # Copy from listener / remove labels and label jumps
         label_finalizer = LabelFinalizer(strip_last_label(compiler_visitor.routine_ops))
